@@ -124,11 +124,25 @@ def decomp_event(chk, pre_expr, parts, tsyms, key, what, sorter="none",
     for s_ in sides:
         adapter.fill_order(s_, tgt)
     recs = []
+    import re as _re
+    byname = {(ix["n"], ix["p"]): n_ + 1 for n_, ix in enumerate(ctx.idx)}
+
+    def ids_of(entry):
+        """key entry made of index names -> index ids (syntactic)"""
+        if entry == "none":
+            return []
+        if entry.startswith("no_"):
+            return [-1]
+        out = []
+        for m_ in _re.finditer(r"([a-z]\d*)(?:_([ab]))?", entry):
+            out.append(byname.get((m_.group(1), m_.group(2) or ""), 0))
+        return out
     for x, pl, k in prj:
         recs.append({"x": x,
                      "perms": [{"ps": perms_rec(ctx, perms), "f": int(f)}
                                for perms, f in pl],
-                     "key": [list(s) for s in k] or [list("none")]})
+                     "key": [list(s) for s in k] or [list("none")],
+                     "kids": [ids_of(s) for s in k] or [[]]})
     bkn = events.collect_bk(ctx, [(pre, True)] + [(p[0], False) for p in prj],
                             getattr(pre_expr, "sym_tensors", ()),
                             getattr(pre_expr, "antisym_tensors", ()))
@@ -223,7 +237,8 @@ def sort_case(chk, g, r):
     expr = Expr(total, target_idx=tsyms)
     name = r.choice([tn.eri, tn.fock])
     which = r.choice(["by_tensor_block", "by_delta_types", "by_delta_indices",
-                      "by_tensor_target_block", "filter_tensor"])
+                      "by_tensor_target_block", "by_tensor_target_indices",
+                      "filter_tensor"])
     pre_copy = Expr(expr.sympy, **expr.assumptions)
     if which == "filter_tensor":
         strict = r.choice(["low", "medium", "high"])
@@ -261,9 +276,7 @@ def sort_case(chk, g, r):
         return
     parts = [([], v, tuple(k)) for k, v in res.items()]
     decomp_event(chk, pre_copy, parts, tsyms, which, what,
-                 sorter=which if which in ("by_tensor_block",
-                                           "by_delta_types") else "none",
-                 nid_name=name)
+                 sorter=which, nid_name=name)
 
 
 def run(chk):
